@@ -22,10 +22,10 @@
 namespace scn {
 
 enum { S_SPAWN_DISCARD = 0, S_SPAWN_AWAIT_SP, S_CALL_CHILD, S_PAUSE, S_RESOLVE_DISCARD, S_RESOLVE_AWAIT, S_AWAIT_FUT, S_LOCK, S_UNLOCK_DISCARD,
-       S_UNLOCK_AWAIT, S_PUSH_DISCARD, S_PUSH_AWAIT, S_POP, S_START_CHILD, S_JOIN_STARTED, S_NKINDS };
+       S_UNLOCK_AWAIT, S_PUSH_DISCARD, S_PUSH_AWAIT, S_POP, S_START_CHILD, S_JOIN_STARTED, S_CREATE_SP_DISCARD, S_CREATE_SP_AWAIT, S_NKINDS };
 inline const char *sk_name(int k) {
     static const char *n[] = {"spawn", "co_await spawn", "co_await child()", "pause", "resolve", "co_await resolve", "await", "lock", "unlock", "co_await unlock",
-                              "push", "co_await push", "pop", "start() child", "join started child"};
+                              "push", "co_await push", "pop", "start() child", "join started child", "create_suspend_point(resolve)", "co_await create_suspend_point(resolve)"};
     return n[k];
 }
 struct c5_step { int kind; int arg; };
@@ -95,6 +95,20 @@ inline cocls::async<void> c5_coro(c5_world &W, int cid) {
                 case S_PAUSE: W.on_suspend(cid); co_await cocls::pause(); W.on_resume(cid); break;
                 case S_RESOLVE_DISCARD: if (W.P[st.arg]) (*W.P[st.arg])(cid); break;
                 case S_RESOLVE_AWAIT: if (W.P[st.arg]) { cocls::suspend_point<bool> sp = (*W.P[st.arg])(cid); W.on_suspend(cid); co_await sp; W.on_resume(cid); } break;
+                case S_CREATE_SP_DISCARD:
+                    if (W.P[st.arg]) {
+                        // the public helper collects what fn() made ready into a suspend point; discarding it re-queues them behind
+                        // everything that was queued before
+                        cocls::suspend_point<void> sp = cocls::coro_queue::create_suspend_point([&] { (*W.P[st.arg])(cid); });
+                        (void)sp;
+                    }
+                    break;
+                case S_CREATE_SP_AWAIT:
+                    if (W.P[st.arg]) {
+                        cocls::suspend_point<void> sp = cocls::coro_queue::create_suspend_point([&] { (*W.P[st.arg])(cid); });
+                        W.on_suspend(cid); co_await sp; W.on_resume(cid);
+                    }
+                    break;
                 case S_AWAIT_FUT: { W.on_suspend(cid); bool hv = co_await W.F[st.arg]->has_value(); (void)hv; W.on_resume(cid); break; }
                 case S_LOCK: if (!own) { W.on_suspend(cid); own = co_await W.M.lock(); W.on_resume(cid); } break;
                 case S_UNLOCK_DISCARD: if (own) own.release(); break;
@@ -274,7 +288,9 @@ struct c5_model {
                 break;
             }
             case S_PAUSE: x.state = 1; yield_cpu({}, c); break;
+            case S_CREATE_SP_DISCARD:
             case S_RESOLVE_DISCARD: if (!fut_resolved[st.arg]) { fut_resolved[st.arg] = true; std::vector<int> g = fut_wait[st.arg]; fut_wait[st.arg].clear(); make_ready_group(g); } break;
+            case S_CREATE_SP_AWAIT:
             case S_RESOLVE_AWAIT:
                 if (!fut_resolved[st.arg]) {
                     fut_resolved[st.arg] = true; std::vector<int> g = fut_wait[st.arg]; fut_wait[st.arg].clear();
@@ -311,7 +327,8 @@ inline std::vector<c5_step> c5_random_script(vf::rng &r, int nscripts, int nsafe
         else if (x < 19) { if (nested_safe) continue; st.kind = S_CALL_CHILD; st.arg = (int)r.below((uint32_t)nscripts); }
         else if (x < 27 && nsafe > 0) { st.kind = S_START_CHILD; st.arg = nscripts + (int)r.below((uint32_t)nsafe); }
         else if (x < 36) { if (nested_safe) continue; st.kind = S_PAUSE; }
-        else if (x < 45) { st.kind = S_RESOLVE_DISCARD; st.arg = (int)r.below(c5_world::NF); }
+        else if (x < 42) { st.kind = S_RESOLVE_DISCARD; st.arg = (int)r.below(c5_world::NF); }
+        else if (x < 45) { st.kind = nested_safe || r.chance(1, 2) ? S_CREATE_SP_DISCARD : S_CREATE_SP_AWAIT; st.arg = (int)r.below(c5_world::NF); }
         else if (x < 50) { if (nested_safe) continue; st.kind = S_RESOLVE_AWAIT; st.arg = (int)r.below(c5_world::NF); }
         else if (x < 61) { st.kind = S_AWAIT_FUT; st.arg = (int)r.below(c5_world::NF); }
         else if (x < 70) st.kind = S_LOCK;
@@ -371,7 +388,7 @@ inline void scheduling_programs(const vf::opts &o, vf::report &R, uint64_t progr
         if (err.empty() && W.finished != W.ncoro) err = "only " + std::to_string(W.finished) + " of " + std::to_string(W.ncoro) + " coroutines finished after everything they wait for was resolved";
         auto describe = [&]() {
             std::vector<std::string> ss;
-            for (auto &sc : W.scripts) { std::string s; for (auto &st : sc) s += std::string(sk_name(st.kind)) + (st.kind <= S_CALL_CHILD || st.kind == S_START_CHILD || (st.kind >= S_RESOLVE_DISCARD && st.kind <= S_AWAIT_FUT) ? "(" + std::to_string(st.arg) + ")" : "") + "; "; ss.push_back(vf::jstr(s)); }
+            for (auto &sc : W.scripts) { std::string s; for (auto &st : sc) s += std::string(sk_name(st.kind)) + (st.kind <= S_CALL_CHILD || st.kind == S_START_CHILD || st.kind >= S_CREATE_SP_DISCARD || (st.kind >= S_RESOLVE_DISCARD && st.kind <= S_AWAIT_FUT) ? "(" + std::to_string(st.arg) + ")" : "") + "; "; ss.push_back(vf::jstr(s)); }
             std::string tr;
             for (size_t i = 0; i < W.trace.size() && i < 400; i++) { auto &e = W.trace[i]; tr += (e.cid < 0 ? "N" + std::to_string(e.a) + ":" + std::to_string(e.b) : std::to_string(e.cid) + (e.kind == EV_BEGIN ? "b" : e.kind == EV_END ? "e" : "F") + (e.kind == EV_FINISH ? "" : std::to_string(e.a))) + " "; }
             return vf::jobj().kv("scenario", "scheduling_programs").kv("seed", (unsigned long long)o.seed).kv("program", (unsigned long long)pn).raw("scripts", vf::jarr(ss))
